@@ -72,33 +72,38 @@ type lpFunc struct {
 	errRes   bool       // ext: the last Go result is `error` (a non-nil error is `Outcome.err`)
 	exts     []lpExtern // ext: untranslated callees taken as parameters
 	errMut   bool       // ext: an error return may follow a write of the receiver
+	paramOpt []bool     // loops_ext.go: per Go parameter (receiver excluded): passed as Option Bytes
 }
 
 type lpGen struct {
-	pkgs      map[string]*packages.Package
-	done      map[*types.Func]*lpFunc
-	refused   map[*types.Func]string
-	busy      map[*types.Func]bool
-	order     []*lpFunc
-	tables    map[*types.Var]string
-	tableDefs []string
-	fuels     []string
-	bufSize   int64
-	ext       *lpExt // option / TLV parser extension (loops_opts.go); nil for Gen/Loops.lean
+	pkgs        map[string]*packages.Package
+	done        map[*types.Func]*lpFunc
+	refused     map[*types.Func]string
+	busy        map[*types.Func]bool
+	order       []*lpFunc
+	tables      map[*types.Var]string
+	tableDefs   []string
+	fuels       []string
+	bufSize     int64
+	ext         *lpExt          // option / TLV parser extension (loops_opts.go); nil for Gen/Loops.lean
+	calleesUsed map[string]bool // loops_ext.go: standard-library callees replaced by model functions
 }
 
 type lpTr struct {
-	g     *lpGen
-	p     *packages.Package
-	info  *types.Info
-	fd    *ast.FuncDecl
-	fn    *lpFunc
-	recv  *types.Var
-	loops []string
-	nloop int
-	ntmp  int
-	ncond int
-	cache map[ast.Node][]string // loop statement → its (unindented) call lines: a loop reached twice (duplicated continuation) is one function
+	g        *lpGen
+	p        *packages.Package
+	info     *types.Info
+	fd       *ast.FuncDecl
+	fn       *lpFunc
+	recv     *types.Var
+	loops    []string
+	nloop    int
+	ntmp     int
+	ncond    int
+	nilable  map[*types.Var]bool   // loops_ext.go: byte-slice variables compared with nil (→ Option Bytes)
+	errParam map[*types.Var]bool   // loops_ext.go: parameters of type error (→ the text)
+	makeFor  *types.Var            // loops_ext.go: the variable a `x := make(…)` / `x = make(…)` right side is stored into
+	cache    map[ast.Node][]string // loop statement → its (unindented) call lines: a loop reached twice (duplicated continuation) is one function
 	// hooks of loops_dns.go (nil for the functions of Gen/Loops.lean and Gen/LoopsOpts.lean)
 	dnsTy          func(ty types.Type) string                     // more Go types
 	dnsExpr        func(e ast.Expr, b *lpBinds) (string, bool)    // more expression forms, asked first
@@ -164,6 +169,9 @@ func (t *lpTr) leanTy(ty types.Type) string {
 	}
 	if lpIsBytes(ty) {
 		return "Bytes"
+	}
+	if s := lpExtTy(ty); s != "" {
+		return s
 	}
 	if b, ok := ty.Underlying().(*types.Basic); ok {
 		switch b.Kind() {
@@ -472,12 +480,25 @@ func (t *lpTr) bytesExpr(e ast.Expr, b *lpBinds) string {
 			t.refuse(e, "identifier %s is not a variable", x.Name)
 		}
 		if t.isLocal(v) {
+			if t.errParam[v] {
+				t.refuse(e, "the error parameter %s is used other than through Error()", x.Name)
+			}
 			if !lpIsBytes(v.Type()) {
 				t.refuse(e, "%s is not a byte slice", x.Name)
+			}
+			if t.nilable[v] {
+				return "(nilBytes " + lpName(v.Name()) + ")"
 			}
 			return lpName(v.Name())
 		}
 		return t.g.table(t, v, x)
+	case *ast.IndexExpr:
+		if n, ty, ok := t.listIndex(x, b); ok {
+			if ty == lpOptBytes {
+				return "(nilBytes " + n + ")"
+			}
+			return n
+		}
 	case *ast.SelectorExpr:
 		if s, ok := t.lineField(x); ok && x.Sel.Name == "buffer" {
 			return s
@@ -522,6 +543,15 @@ func (t *lpTr) bytesExpr(e ast.Expr, b *lpBinds) string {
 					return n
 				}
 			}
+			if _, bi := t.info.Uses[id].(*types.Builtin); bi && len(x.Args) == 3 && isByteSliceNonString(t.info.TypeOf(x.Args[0])) && t.makeFor != nil && t.neverResliced(t.makeFor) {
+				t.intExpr(x.Args[2], &lpBinds{}) // the capacity must at least be an expression of the language
+				n := t.tmp()
+				b.add(fmt.Sprintf("let %s ← makeBytes %s", n, t.intExpr(x.Args[1], b)))
+				return n
+			}
+		}
+		if s, ok := t.extBytesCall(x, b); ok {
+			return s
 		}
 		return t.call(x, b, true)
 	}
@@ -705,6 +735,9 @@ func (t *lpTr) expr(e ast.Expr, b *lpBinds) string {
 					if len(x.Args) == 1 && lpIsBytes(t.info.TypeOf(x.Args[0])) {
 						return "(" + t.bytesExpr(x.Args[0], b) + ".length : Int)"
 					}
+					if len(x.Args) == 1 && lpIsList(t.leanTy(t.info.TypeOf(x.Args[0]))) {
+						return "(" + t.expr(x.Args[0], b) + ".length : Int)"
+					}
 				case "copy":
 					return t.copyCall(x, b)
 				}
@@ -874,8 +907,12 @@ func (t *lpTr) call(c *ast.CallExpr, b *lpBinds, want bool) string {
 	if recvArg != "" {
 		args = append(args, recvArg)
 	}
-	for _, a := range c.Args {
-		args = append(args, t.argExpr(a, b))
+	for i, a := range c.Args {
+		if i < len(cf.paramOpt) && cf.paramOpt[i] {
+			args = append(args, t.optExpr(a, b))
+		} else {
+			args = append(args, t.argExpr(a, b))
+		}
 	}
 	if cf.lineRecv {
 		if want {
@@ -913,6 +950,9 @@ func (t *lpTr) cond(e ast.Expr, b *lpBinds) string {
 		if s, ok := t.extCond(e, b); ok {
 			return s
 		}
+	}
+	if s, ok := t.flCond(e, b); ok {
+		return s
 	}
 	switch x := e.(type) {
 	case *ast.BinaryExpr:
@@ -993,7 +1033,7 @@ func (t *lpTr) tupleTy(vs []*types.Var) string {
 	}
 	var p []string
 	for _, v := range vs {
-		p = append(p, t.leanTy(v.Type()))
+		p = append(p, t.varTy(v))
 	}
 	return strings.Join(p, " × ")
 }
@@ -1025,11 +1065,18 @@ func (t *lpTr) simple(s ast.Stmt, b *lpBinds) {
 				t.refuse(s, "var declaration without a single initialiser")
 			}
 			v := t.info.Defs[vs.Names[0]].(*types.Var)
-			lt := t.leanTy(v.Type())
+			lt := t.varTy(v)
 			if lt == "" || lt == "GLine" {
 				t.refuse(s, "variable of type %s", v.Type())
 			}
-			val := t.expr(vs.Values[0], b)
+			t.makeFor = v
+			val := ""
+			if lt == lpOptBytes {
+				val = t.optExpr(vs.Values[0], b)
+			} else {
+				val = t.expr(vs.Values[0], b)
+			}
+			t.makeFor = nil
 			b.add(fmt.Sprintf("let %s : %s := %s", lpName(v.Name()), lt, val))
 		}
 	case *ast.AssignStmt:
@@ -1070,7 +1117,7 @@ func (t *lpTr) store(lhs ast.Expr, val func(cur string, lt string) string, b *lp
 		if v == nil || !t.isLocal(v) {
 			t.refuse(at, "assignment to %s", x.Name)
 		}
-		lt := t.leanTy(v.Type())
+		lt := t.varTy(v)
 		if lt == "" || lt == "GLine" {
 			t.refuse(at, "assignment to a variable of type %s", v.Type())
 		}
@@ -1121,11 +1168,21 @@ func (t *lpTr) assign(x *ast.AssignStmt, b *lpBinds) {
 		if !ok {
 			t.refuse(x, "redeclaration in :=")
 		}
-		lt := t.leanTy(v.Type())
+		lt := t.varTy(v)
 		if lt == "" || lt == "GLine" {
 			t.refuse(x, "variable of type %s", v.Type())
 		}
-		val := t.expr(rhs, b)
+		if t.extDefine(v, rhs, b) {
+			return
+		}
+		t.makeFor = v
+		val := ""
+		if lt == lpOptBytes {
+			val = t.optExpr(rhs, b)
+		} else {
+			val = t.expr(rhs, b)
+		}
+		t.makeFor = nil
 		b.add(fmt.Sprintf("let %s : %s := %s", lpName(v.Name()), lt, val))
 	case token.ASSIGN:
 		// Go evaluates index operands of the left side, then the right side, then stores; an index store panics at the
@@ -1133,7 +1190,14 @@ func (t *lpTr) assign(x *ast.AssignStmt, b *lpBinds) {
 		if _, isIdx := paren(lhs).(*ast.IndexExpr); isIdx {
 			t.store(lhs, func(string, string) string { return t.expr(rhs, b) }, b, x)
 		} else {
-			val := t.expr(rhs, b)
+			val := ""
+			if lv := t.varOf(lhs); lv != nil && t.nilable[lv] {
+				val = t.optExpr(rhs, b)
+			} else {
+				t.makeFor = t.varOf(lhs)
+				val = t.expr(rhs, b)
+				t.makeFor = nil
+			}
 			t.store(lhs, func(string, string) string { return val }, b, x)
 		}
 	default:
@@ -1204,7 +1268,14 @@ func (t *lpTr) block(stmts []ast.Stmt, ind int, j *lpJump, k lpKont) []string {
 		val := ""
 		if len(x.Results) == 1 {
 			if t.fn.lineRecv {
-				if v := t.varOf(x.Results[0]); v == nil || v != t.recv {
+				if c, isCall := paren(x.Results[0]).(*ast.CallExpr); isCall {
+					// `return l.M(args)` for a translated method of the receiver (which returns its receiver)
+					sel, ok := paren(c.Fun).(*ast.SelectorExpr)
+					if !ok || t.varOf(sel.X) == nil || t.varOf(sel.X) != t.recv {
+						t.refuse(s, "a *Line method must return its receiver")
+					}
+					t.call(c, &b, false)
+				} else if v := t.varOf(x.Results[0]); v == nil || v != t.recv {
 					t.refuse(s, "a *Line method must return its receiver")
 				}
 			} else {
@@ -1353,17 +1424,17 @@ func (t *lpTr) loopFn(node ast.Node, pre []string, cond ast.Expr, body []ast.Stm
 		}
 	}
 	for _, v := range append(append([]*types.Var{}, carried...), params...) {
-		if t.leanTy(v.Type()) == "" {
+		if t.varTy(v) == "" {
 			t.refuse(node, "loop uses variable %s of unsupported type %s", v.Name(), v.Type())
 		}
 	}
 	var sig []string
 	for _, v := range params {
-		sig = append(sig, fmt.Sprintf("(%s : %s)", lpName(v.Name()), t.leanTy(v.Type())))
+		sig = append(sig, fmt.Sprintf("(%s : %s)", lpName(v.Name()), t.varTy(v)))
 	}
 	var argTys, pats, wild []string
 	for _, v := range carried {
-		argTys = append(argTys, t.leanTy(v.Type()))
+		argTys = append(argTys, t.varTy(v))
 		pats = append(pats, lpName(v.Name()))
 		wild = append(wild, "_")
 	}
@@ -1540,8 +1611,12 @@ func (t *lpTr) rangeStmt(x *ast.RangeStmt, ind int, j *lpJump) []string {
 		t.refuse(x, "range with a key variable")
 	}
 	xv := t.varOf(x.X)
-	if xv == nil || !t.isLocal(xv) || !lpIsBytes(xv.Type()) {
-		t.refuse(x, "range over %s (only a local byte slice)", nodeText(x.X))
+	if xv == nil || !t.isLocal(xv) || !(lpIsBytes(xv.Type()) || lpIsList(t.leanTy(xv.Type()))) {
+		t.refuse(x, "range over %s (only a local byte slice, []string or []net.IP)", nodeText(x.X))
+	}
+	idxFn := "idxI"
+	if lpIsList(t.leanTy(xv.Type())) {
+		idxFn = "idxL"
 	}
 	if _, isStr := xv.Type().Underlying().(*types.Basic); isStr {
 		t.refuse(x, "range over a string (runes)")
@@ -1561,6 +1636,9 @@ func (t *lpTr) rangeStmt(x *ast.RangeStmt, ind int, j *lpJump) []string {
 	t.nloop--
 	kname := fmt.Sprintf("k%d", t.nloop+1)
 	xs := lpName(xv.Name())
+	if t.nilable[xv] {
+		xs = "(nilBytes " + xs + ")"
+	}
 	lines := []string{lpInd(ind) + fmt.Sprintf("let %s : Int := (0 : Int)", kname)}
 	// a synthetic loop: built by hand because the counter has no Go object
 	t.nloop++
@@ -1583,19 +1661,19 @@ func (t *lpTr) rangeStmt(x *ast.RangeStmt, ind int, j *lpJump) []string {
 		}
 	}
 	for _, v := range append(append([]*types.Var{}, carried...), params...) {
-		if t.leanTy(v.Type()) == "" {
+		if t.varTy(v) == "" {
 			t.refuse(x, "loop uses variable %s of unsupported type %s", v.Name(), v.Type())
 		}
 	}
 	var sig []string
 	for _, v := range params {
-		sig = append(sig, fmt.Sprintf("(%s : %s)", lpName(v.Name()), t.leanTy(v.Type())))
+		sig = append(sig, fmt.Sprintf("(%s : %s)", lpName(v.Name()), t.varTy(v)))
 	}
 	argTys := []string{"Int"}
 	pats := []string{kname}
 	wild := []string{"_"}
 	for _, v := range carried {
-		argTys = append(argTys, t.leanTy(v.Type()))
+		argTys = append(argTys, t.varTy(v))
 		pats = append(pats, lpName(v.Name()))
 		wild = append(wild, "_")
 	}
@@ -1616,7 +1694,7 @@ func (t *lpTr) rangeStmt(x *ast.RangeStmt, ind int, j *lpJump) []string {
 	fl = append(fl, "  | "+strings.Join(append([]string{"0"}, wild...), ", ")+" => .hang")
 	fl = append(fl, "  | "+strings.Join(append([]string{"fuel + 1"}, pats...), ", ")+" => do")
 	fl = append(fl, lpInd(4)+fmt.Sprintf("if (%s < (%s.length : Int)) then do", kname, xs))
-	fl = append(fl, lpInd(6)+fmt.Sprintf("let %s ← idxI %s %s", lpName(vv.Name()), xs, kname))
+	fl = append(fl, lpInd(6)+fmt.Sprintf("let %s ← %s %s %s", lpName(vv.Name()), idxFn, xs, kname))
 	fl = append(fl, t.block(x.Body.List, 6, &lpJump{brk: exit, cont: again}, again)...)
 	fl = append(fl, lpInd(4)+"else do")
 	fl = append(fl, exit(6)...)
@@ -1719,6 +1797,7 @@ func (g *lpGen) translate(f *types.Func) (res *lpFunc, why string) {
 	t.fn = fn
 	sig := f.Type().(*types.Signature)
 	t.checkShadow()
+	t.scanNilable()
 	var allParams []*types.Var
 	if r := sig.Recv(); r != nil {
 		t.recv = r
@@ -1736,7 +1815,13 @@ func (g *lpGen) translate(f *types.Func) (res *lpFunc, why string) {
 	}
 	as := t.assigned(fd.Body)
 	for _, v := range allParams {
-		lt := t.leanTy(v.Type())
+		if isNamed(v.Type(), "", "error") {
+			t.errParam[v] = true
+		}
+		lt := t.varTy(v)
+		if v != sig.Recv() {
+			fn.paramOpt = append(fn.paramOpt, lt == lpOptBytes)
+		}
 		if lt == "" {
 			t.refuse(fd, "parameter %s of type %s", v.Name(), v.Type())
 		}
@@ -1866,7 +1951,7 @@ var lpPacketCandidates = []struct{ recv, name string }{
 }
 
 func loopFacts(pkgs []*packages.Package, b *strings.Builder) {
-	g := &lpGen{pkgs: map[string]*packages.Package{}, done: map[*types.Func]*lpFunc{}, refused: map[*types.Func]string{}, busy: map[*types.Func]bool{}, tables: map[*types.Var]string{}}
+	g := &lpGen{pkgs: map[string]*packages.Package{}, done: map[*types.Func]*lpFunc{}, refused: map[*types.Func]string{}, busy: map[*types.Func]bool{}, tables: map[*types.Var]string{}, calleesUsed: map[string]bool{}}
 	var root, flog *packages.Package
 	for _, p := range pkgs {
 		g.pkgs[p.PkgPath] = p
@@ -1929,7 +2014,7 @@ func loopFacts(pkgs []*packages.Package, b *strings.Builder) {
 	for _, c := range cands {
 		g.translate(c.f)
 	}
-	b.WriteString("/- GENERATED by /verif/tools/goextract (loops.go) from the Go sources in /repo — do not edit. -/\nimport PacketVerif.Model.LoopGo\nset_option linter.unusedVariables false\nnamespace PV.Gen.Loops\nopen PV PV.Model.LoopGo\n\n")
+	b.WriteString("/- GENERATED by /verif/tools/goextract (loops.go) from the Go sources in /repo — do not edit. -/\nimport PacketVerif.Model.LoopGo\nimport PacketVerif.Model.Fastlog\nset_option linter.unusedVariables false\nnamespace PV.Gen.Loops\nopen PV PV.Model.LoopGo\n\n")
 	for _, d := range g.tableDefs {
 		b.WriteString(d + "\n")
 	}
@@ -1961,6 +2046,7 @@ func loopFacts(pkgs []*packages.Package, b *strings.Builder) {
 		b.WriteString(strings.Join(rows, ",\n") + "]\n\n")
 	}
 	b.WriteString("/-- the fuel handed to every generated loop function (not trusted: too little fuel shows as `.hang`) -/\ndef loopFuels : List (String × String) := [\n  " + strings.Join(g.fuels, ",\n  ") + "]\n\n")
+	b.WriteString(lpCalleesText(g.calleesUsed))
 	b.WriteString("/-- what the translation assumes about Go (reviewed in design_notes/bQ.md) -/\ndef loopAssumptions : List (String × String) := [\n" +
 		"  (\"intNoOverflow\", \"Go int is modelled as an unbounded integer; every int value in the translated functions is a length, an index below a length plus a small constant, or a small constant\"),\n" +
 		"  (\"capEqLen\", \"a slice expression x[lo:hi] on a byte-slice value is checked against len(x) (the length-only view of the models)\"),\n" +
